@@ -85,10 +85,18 @@ def run(prog: Program, res: Result, tier: str) -> None:
     G = "kernels.nb_fft_good_size(self.nsamples, real=True)"
     rets = normal_form(rf).returns()
     ok = bool(rets)
+    seen_default = False
     for e in rets:
         f_ = "kernels.nb_rfft" if e.under("fftn is None") or any("cmp[Is]($v" in c and c.startswith("if ") for c in e.ctx) else None
         m_ = __import__("re").fullmatch(r"fourierseries\.FourierSeries\((?P<f>[\w.$@]+)\(self\.data, (?P<n>.+?)\), self\.header\.new_header\(\{'nsamples': (?P<h>.+)\}\)\)", e.text())
-        ok = ok and m_ is not None and m_.group("n") == m_.group("h") == canon(G) and (f_ is None or m_.group("f") == f_)
+        same_len = m_ is not None and m_.group("n") == m_.group("h")
+        is_good = same_len and m_.group("n") == canon(G)
+        # a caller-chosen transform length (optional parameter, None by default) is used for the FFT and recorded alike
+        opt = [p_ for p_ in rf.params if p_ != "self" and e.under(f"{p_} is not None")]
+        chosen = same_len and any(m_.group("n") in (p_, f"int({p_})") for p_ in opt)
+        seen_default = seen_default or is_good
+        ok = ok and (is_good or chosen) and (f_ is None or m_.group("f") == f_)
+    ok = ok and seen_default
     (res.ok if ok else res.bad)("R2", rf, rf.node, "rfft pads to the good size n_good, transforms with length n_good and records nsamples = n_good" if ok else
                                 "TimeSeries.rfft: the FFT length and the recorded header nsamples are no longer the same n_good", construct="rfft", key="rfft")
     gs = prog.func(K, "nb_fft_good_size")
